@@ -263,6 +263,26 @@ def r4_single_binding(ctx, sym):
                   "merging maps copies %s without re-adding its symbols through %s, so conflicts between the two maps "
                   "are not detected" % (table, adder),
                   "`_x_ + 1` in one statement and `_x_ * 2` in the next bind _x_ to different variables")
+    # ownership: a map never adopts a table object of another map (later merges would mutate both)
+    cls = mod.cls('AstMap')
+    tables = ('mappings', 'symbol_table', 'exp_table', 'func_table', 'class_table', 'conflict_keys')
+    n_alias = 0
+    for f in [x for x in cls.body if isinstance(x, ast.FunctionDef)]:
+        params = [a.arg for a in f.args.args][1:]
+        for n in ast.walk(f):
+            if isinstance(n, ast.Assign) and any(isinstance(t, ast.Attribute) and isinstance(t.value, ast.Name)
+                                                 and t.value.id == 'self' and t.attr in tables for t in n.targets):
+                v = n.value
+                n_alias += 1
+                alias = isinstance(v, ast.Attribute) and isinstance(v.value, ast.Name) and v.value.id in params \
+                    and v.attr in tables
+                ctx.check(not alias, 'R4', '%s:aliases:%s' % (f.name, norm(n.targets[0])), mod, n,
+                          "`%s` makes this map share the table object of another map; every alternative extension of "
+                          "one partial match then mutates the same table and the last binding wins for all of them" %
+                          norm(n),
+                          "pattern f(__a__, __b__) against f(1, 2, 3): the match that pairs __b__ with 2 reports "
+                          "__b__ = 3")
+    ctx.floor('R4', 'table assignments in AstMap', n_alias, 5)
     for adder in ('add_var_to_sym_table', 'add_func_to_sym_table', 'add_class_to_sym_table'):
         f = mod.func('AstMap.' + adder)
         ok = any(isinstance(c.func, ast.Attribute) and c.func.attr == 'add_x_to_sym_table' for c in calls(f))
